@@ -149,6 +149,31 @@ def trySetMax : IView → Int → Ctx → Option Ctx
   | .prev v, m, ctx => trySetMax v (m + 1) ctx
 end
 
+/- A *float* bound (`Val::ValF`) pushed through a view onto an integer variable, given as the
+ceiling (`trySetMinF`) / floor (`trySetMaxF`) of the float: `Opposite`, `Plus`, `TimesPos` and the
+final `ceil`/`floor` conversion in `Context::try_set_min/max` (arms `(VarI, ValF)`) commute with
+rounding, so the result equals the integer setter — except for `Next`/`Prev`, whose `ValF` arm
+passes the bound through *unchanged* when the underlying variable is an integer
+(`views.rs`, `Next::try_set_min`, "Fallback: return original value"). -/
+mutual
+def trySetMinF : IView → Int → Ctx → Option Ctx
+  | .const c, m, ctx => if m ≤ c then some ctx else none
+  | .var i, m, ctx => ctx.trySetMin i m
+  | .opp v, m, ctx => trySetMaxF v (-m) ctx
+  | .plus v k, m, ctx => trySetMinF v (m - k) ctx
+  | .tpos v k, m, ctx => trySetMinF v (ceilDiv m k) ctx
+  | .next v, m, ctx => trySetMinF v m ctx
+  | .prev v, m, ctx => trySetMinF v m ctx
+def trySetMaxF : IView → Int → Ctx → Option Ctx
+  | .const c, m, ctx => if m ≥ c then some ctx else none
+  | .var i, m, ctx => ctx.trySetMax i m
+  | .opp v, m, ctx => trySetMinF v (-m) ctx
+  | .plus v k, m, ctx => trySetMaxF v (m - k) ctx
+  | .tpos v k, m, ctx => trySetMaxF v (floorDiv m k) ctx
+  | .next v, m, ctx => trySetMaxF v m ctx
+  | .prev v, m, ctx => trySetMaxF v m ctx
+end
+
 def vmin (v : IView) (c : Ctx) : Int := v.minRaw c.st
 def vmax (v : IView) (c : Ctx) : Int := v.maxRaw c.st
 
@@ -171,6 +196,32 @@ def Cmp.holds : Cmp → Int → Int → Bool
   | .gt, x, y => decide (x > y)
   | .ge, x, y => decide (x ≥ y)
 
+/-- `CardinalityType` -/
+inductive CardTy where | atLeast | atMost | exactly
+deriving DecidableEq, Repr
+
+/-- `conditional::Condition` -/
+inductive CondOp where | eq | ne | gt | lt
+deriving DecidableEq, Repr
+
+/-- `conditional::SimpleConstraint` -/
+inductive SimpOp where | eq | ne | gt | lt | ge | le
+deriving DecidableEq, Repr
+
+def CondOp.holds : CondOp → Int → Int → Bool
+  | .eq, x, v => x == v
+  | .ne, x, v => x != v
+  | .gt, x, v => decide (x > v)
+  | .lt, x, v => decide (x < v)
+
+def SimpOp.holds : SimpOp → Int → Int → Bool
+  | .eq, x, v => x == v
+  | .ne, x, v => x != v
+  | .gt, x, v => decide (x > v)
+  | .lt, x, v => decide (x < v)
+  | .ge, x, v => decide (x ≥ v)
+  | .le, x, v => decide (x ≤ v)
+
 inductive PK where
   | leq (x y : IView)                              -- LessThanOrEquals
   | eq (x y : IView)                               -- Eq
@@ -192,6 +243,18 @@ inductive PK where
   | min (xs : List Nat) (r : Nat)
   | max (xs : List Nat) (r : Nat)
   | noop
+  | mul (x y : IView) (s : Nat)                    -- Mul
+  | div (x y : IView) (s : Nat)                    -- Div
+  | modulo (x y : IView) (s : Nat)                 -- Modulo
+  | allEqual (xs : List Nat)                       -- AllEqual
+  | between (l m u : Nat)                          -- BetweenConstraint
+  | count (xs : List Nat) (t : IView) (c : Nat)    -- Count
+  | card (ty : CardTy) (xs : List Nat) (tv n : Int) -- CardinalityConstraint
+  | element (arr : List Nat) (idx val : Nat)       -- Element
+  | table (xs : List Nat) (ts : List (List Int))   -- Table
+  | ite (cop : CondOp) (cv : Nat) (cval : Int) (top : SimpOp) (tv : Nat) (tval : Int)
+        (els : Option (SimpOp × Nat × Int))        -- IfThenElseConstraint
+  | allDiff (xs : List Nat)                        -- AllDiff (bit-set GAC engine)
 deriving Repr
 
 /-- `Option` bind chain helper: run `f` for every element, threading the context -/
@@ -492,6 +555,416 @@ def pruneMax (xs : List Nat) (r : Nat) (ctx : Ctx) : Option Ctx :=
           let hasPrev := xs.any (fun x => decide ((c.st x).dmax < rmax))
           if hasPrev ∧ canBe.length = 1 then c.trySetMin r (c.st (canBe.headD 0)).dmin else some c)))
 
+/-! ### kinds added by `kinds2`: mul, div, modulo, allEqual, between, count, cardinality, element,
+table, if-then-else, allDiff
+
+Reading of the documented meanings (`holds` below):
+* `div`: `Val / Val` on two integers is a *float* in selen (`ValI / ValI → ValF(a as f64 / b as f64)`),
+  so `x / y == s` over integers means real division: `y ≠ 0 ∧ s * y = x`.
+* `modulo`: Rust's `%` (truncated remainder, `Int.tmod`), divisor non-zero.
+* float bounds reaching an integer variable are rounded with `ceil` (min) / `floor` (max)
+  (`Context::try_set_min/max`, arms `(VarI, ValF)`); for `i32` operands the `f64` quotient is exact
+  enough that this equals `ceilDiv` / `floorDiv` of the exact rational.
+Known defects of the code are modelled as they are (kernel-checked counterexamples in
+`Lemmas/Kinds/*.lean`): empty `allEqual` fails; `div`/`modulo` return success without checking when
+the divisor range contains 0; `modulo` loses solutions for negative operands and when it samples
+only boundary values; a float bound pushed through `Next`/`Prev` is not shifted. -/
+
+/-- `Val::range_contains_unsafe_divisor` on two integers -/
+def rangeHasZero (lo hi : Int) : Bool := decide (lo ≤ 0) && decide (hi ≥ 0)
+
+/-- `lo..=hi` -/
+def intRange (lo hi : Int) : List Int := (List.range (hi - lo + 1).toNat).map (fun (i : Nat) => lo + (i : Int))
+
+/-- `if var.min(ctx) < v { var.try_set_min(v, ctx)? }` -/
+def setMinG (x : Nat) (v : Int) (c : Ctx) : Option Ctx :=
+  if (c.st x).dmin < v then c.trySetMin x v else some c
+
+/-- `if var.max(ctx) > v { var.try_set_max(v, ctx)? }` -/
+def setMaxG (x : Nat) (v : Int) (c : Ctx) : Option Ctx :=
+  if (c.st x).dmax > v then c.trySetMax x v else some c
+
+/-- `Mul::prune`.  The quotient candidates `s / y` are floats in the code (`ValI / ValI → ValF`);
+the minimum of the candidates is rounded up and the maximum down when it reaches the integer
+variable, and rounding is monotone, so the model takes `min` of the ceilings / `max` of the floors. -/
+def pruneMul (x y : IView) (s : Nat) (ctx : Ctx) : Option Ctx :=
+  let xmin := x.vmin ctx
+  let xmax := x.vmax ctx
+  let ymin := y.vmin ctx
+  let ymax := y.vmax ctx
+  let prods : List Int := [xmin * ymin, xmin * ymax, xmax * ymin, xmax * ymax]
+  ctx.trySetMin s (Dom.dmin prods) >>>= (·.trySetMax s (Dom.dmax prods)) >>>= (fun c =>
+    let smin := (c.st s).dmin
+    let smax := (c.st s).dmax
+    (if rangeHasZero ymin ymax then some c
+     else
+       x.trySetMinF (Dom.dmin [ceilDiv smin ymin, ceilDiv smin ymax, ceilDiv smax ymin, ceilDiv smax ymax]) c
+         >>>= (x.trySetMaxF (Dom.dmax [floorDiv smin ymin, floorDiv smin ymax, floorDiv smax ymin, floorDiv smax ymax]) ·))
+    >>>= (fun c =>
+      if rangeHasZero xmin xmax then some c
+      else
+        y.trySetMinF (Dom.dmin [ceilDiv smin xmin, ceilDiv smin xmax, ceilDiv smax xmin, ceilDiv smax xmax]) c
+          >>>= (y.trySetMaxF (Dom.dmax [floorDiv smin xmin, floorDiv smin xmax, floorDiv smax xmin, floorDiv smax xmax]) ·)))
+
+/-- `Div::prune` -/
+def pruneDiv (x y : IView) (s : Nat) (ctx : Ctx) : Option Ctx :=
+  let xmin := x.vmin ctx
+  let xmax := x.vmax ctx
+  let ymin := y.vmin ctx
+  let ymax := y.vmax ctx
+  if rangeHasZero ymin ymax then some ctx
+  else
+    ctx.trySetMin s (Dom.dmin [ceilDiv xmin ymin, ceilDiv xmin ymax, ceilDiv xmax ymin, ceilDiv xmax ymax])
+      >>>= (·.trySetMax s (Dom.dmax [floorDiv xmin ymin, floorDiv xmin ymax, floorDiv xmax ymin, floorDiv xmax ymax]))
+      >>>= (fun c =>
+        let smin := (c.st s).dmin
+        let smax := (c.st s).dmax
+        let xc : List Int := [smin * ymin, smin * ymax, smax * ymin, smax * ymax]
+        x.trySetMin (Dom.dmin xc) c >>>= (x.trySetMax (Dom.dmax xc) ·) >>>= (fun c =>
+          if rangeHasZero smin smax then some c
+          else
+            y.trySetMinF (Dom.dmin [ceilDiv xmin smin, ceilDiv xmin smax, ceilDiv xmax smin, ceilDiv xmax smax]) c
+              >>>= (y.trySetMaxF (Dom.dmax [floorDiv xmin smin, floorDiv xmin smax, floorDiv xmax smin, floorDiv xmax smax]) ·)))
+
+/-- CASE 3 of `Modulo::prune`: the sampled remainders -/
+def modCands (xmin xmax ymin ymax : Int) : List Int :=
+  if ymin = ymax then (intRange xmin xmax).map (fun xv => Int.tmod xv ymin)
+  else if ymax - ymin ≤ 10 then
+    let xs := if xmax - xmin ≤ 10 then intRange xmin xmax else [xmin, xmax]
+    (intRange ymin ymax).flatMap (fun yv => xs.map (fun xv => Int.tmod xv yv))
+  else
+    let xs := if xmin = xmax then [xmin] else [xmin, xmax]
+    xs.flatMap (fun xv => [Int.tmod xv ymin, Int.tmod xv ymax])
+
+/-- `Modulo::prune` (integer operands; `%` is Rust's truncated remainder `Int.tmod`) -/
+def pruneMod (x y : IView) (s : Nat) (ctx : Ctx) : Option Ctx :=
+  let xmin := x.vmin ctx
+  let xmax := x.vmax ctx
+  let ymin := y.vmin ctx
+  let ymax := y.vmax ctx
+  let smin := (ctx.st s).dmin
+  let smax := (ctx.st s).dmax
+  if rangeHasZero ymin ymax then some ctx
+  else if xmin = xmax ∧ ymin = ymax then
+    ctx.trySetMin s (Int.tmod xmin ymin) >>>= (·.trySetMax s (Int.tmod xmin ymin))
+  else
+    (if ymin = ymax then
+      let thmin := if ymin > 0 then 0 else ymin + 1
+      let thmax := if ymin > 0 then ymin - 1 else 0
+      let nmin := if thmin > smin then thmin else smin
+      let nmax := if thmax < smax then thmax else smax
+      ctx.trySetMin s nmin >>>= (·.trySetMax s nmax)
+     else some ctx)
+    >>>= (fun c =>
+      let cs := modCands xmin xmax ymin ymax
+      if cs.isEmpty then some c else c.trySetMin s (Dom.dmin cs) >>>= (·.trySetMax s (Dom.dmax cs)))
+    >>>= (fun c =>
+      if ymin = ymax ∧ smin = smax ∧ smin ≥ 0 ∧ smin < ymin.natAbs then
+        let kmin := Int.tdiv (xmin - smin) ymin
+        let kmax := Int.tdiv (xmax - smin) ymin
+        let vals := ((intRange (kmin - 1) (kmax + 1)).map (fun k => k * ymin + smin)).filter
+          (fun v => decide (xmin ≤ v) && decide (v ≤ xmax))
+        if vals.isEmpty then some c else x.trySetMin (Dom.dmin vals) c >>>= (x.trySetMax (Dom.dmax vals) ·)
+      else some c)
+
+/-- `AllEqual::prune` (the early exit of `compute_domain_intersection` is not observable: the
+running lower bound only grows and the upper bound only shrinks) -/
+def pruneAllEqual (xs : List Nat) (ctx : Ctx) : Option Ctx :=
+  match xs with
+  | [] => none
+  | x0 :: rest =>
+    let lo := rest.foldl (fun acc x => if (ctx.st x).dmin > acc then (ctx.st x).dmin else acc) (ctx.st x0).dmin
+    let hi := rest.foldl (fun acc x => if (ctx.st x).dmax < acc then (ctx.st x).dmax else acc) (ctx.st x0).dmax
+    if lo > hi then none
+    else forM' xs ctx (fun x c => setMinG x lo c >>>= (setMaxG x hi ·))
+
+/-- `BetweenConstraint::prune` -/
+def pruneBetween (l m u : Nat) (ctx : Ctx) : Option Ctx :=
+  let lmin := (ctx.st l).dmin
+  let mmin := (ctx.st m).dmin
+  let mmax := (ctx.st m).dmax
+  let umax := (ctx.st u).dmax
+  ctx.trySetMax l mmax >>>= (·.trySetMin m lmin) >>>= (·.trySetMax m umax) >>>= (·.trySetMin u mmin)
+
+/-- remove `t` from the domain of `x` when it is one of its bounds (and `x` is not fixed) -/
+def dropAtBound (x : Nat) (t : Int) (c : Ctx) : Option Ctx :=
+  let mn := (c.st x).dmin
+  let mx := (c.st x).dmax
+  if mn ≠ mx ∧ mn ≤ t ∧ t ≤ mx then
+    if t = mn then c.trySetMin x (t + 1)
+    else if t = mx then c.trySetMax x (t - 1)
+    else some c
+  else some c
+
+/-- fix `x` to `t` when `t` lies between its bounds (and `x` is not fixed) -/
+def forceTo (x : Nat) (t : Int) (c : Ctx) : Option Ctx :=
+  let mn := (c.st x).dmin
+  let mx := (c.st x).dmax
+  if mn ≠ mx ∧ mn ≤ t ∧ t ≤ mx then c.trySetMin x t >>>= (·.trySetMax x t)
+  else some c
+
+/-- number of variables fixed to `t` / whose bounds enclose `[tlo, thi]`-overlap -/
+def cntFixedTo (xs : List Nat) (st : Store) (t : Int) : Int :=
+  ((xs.filter (fun x => (st x).dmin == (st x).dmax && (st x).dmin == t)).length : Nat)
+def cntOverlap (xs : List Nat) (st : Store) (tlo thi : Int) : Int :=
+  ((xs.filter (fun x => decide ((st x).dmin ≤ thi) && decide ((st x).dmax ≥ tlo))).length : Nat)
+
+/-- `Count::prune` -/
+def pruneCount (xs : List Nat) (t : IView) (cv : Nat) (ctx : Ctx) : Option Ctx :=
+  let tmin := t.vmin ctx
+  let tmax := t.vmax ctx
+  let definitely : Int := if tmin ≠ tmax then 0 else cntFixedTo xs ctx.st tmin
+  let possibly : Int := cntOverlap xs ctx.st tmin tmax
+  ctx.trySetMin cv definitely >>>= (·.trySetMax cv possibly) >>>= (fun c =>
+    let cmin := (c.st cv).dmin
+    let cmax := (c.st cv).dmax
+    let tgt := t.vmin c
+    if cmin = cmax ∧ tgt = t.vmax c then
+      if definitely = cmin then forM' xs c (fun x c => dropAtBound x tgt c)
+      else if possibly = cmin then forM' xs c (fun x c => forceTo x tgt c)
+      else some c
+    else some c)
+
+/-- `CardinalityConstraint::prune` -/
+def pruneCard (ty : CardTy) (xs : List Nat) (tv n : Int) (ctx : Ctx) : Option Ctx :=
+  let must := cntFixedTo xs ctx.st tv
+  let can := cntOverlap xs ctx.st tv tv
+  match ty with
+  | .atLeast =>
+    if must ≥ n then some ctx
+    else if can < n then none
+    else if n - must = can - must ∧ n - must > 0 then forM' xs ctx (fun x c => forceTo x tv c)
+    else some ctx
+  | .atMost =>
+    if must > n then none
+    else if must = n then forM' xs ctx (fun x c => dropAtBound x tv c)
+    else some ctx
+  | .exactly =>
+    if must > n then none
+    else if can < n then none
+    else if n - must = can - must ∧ n - must > 0 then forM' xs ctx (fun x c => forceTo x tv c)
+    else if n - must = 0 then forM' xs ctx (fun x c => dropAtBound x tv c)
+    else some ctx
+
+/-- `array.get(i as usize)` for an `i32` index -/
+def getIdx (arr : List Nat) (i : Int) : Option Nat := if i < 0 then none else arr[i.toNat]?
+
+/-- intersect the bounds of `a` and `b`; `a` is updated first -/
+def intersectSet (a b : Nat) (c : Ctx) : Option Ctx :=
+  let amin := (c.st a).dmin
+  let amax := (c.st a).dmax
+  let bmin := (c.st b).dmin
+  let bmax := (c.st b).dmax
+  let nmin := if amin > bmin then amin else bmin
+  let nmax := if amax < bmax then amax else bmax
+  if nmin > nmax then none
+  else setMinG a nmin c >>>= (setMaxG a nmax ·) >>>= (setMinG b nmin ·) >>>= (setMaxG b nmax ·)
+
+/-- `Element::get_valid_indices` -/
+def elemValid (n : Int) (idx : Nat) (st : Store) : List Int :=
+  intRange (if (st idx).dmin > 0 then (st idx).dmin else 0) (if (st idx).dmax < n - 1 then (st idx).dmax else n - 1)
+
+/-- `Element::propagate_from_value` -/
+def elemFromValue (arr : List Nat) (idx val : Nat) (c : Ctx) : Option Ctx :=
+  let vmin := (c.st val).dmin
+  let vmax := (c.st val).dmax
+  let valid := elemValid arr.length idx c.st
+  if valid.length = 1 then
+    match getIdx arr (valid.headD 0) with
+    | none => some c
+    | some av =>
+      let amin := (c.st av).dmin
+      let amax := (c.st av).dmax
+      let nmin := if amin > vmin then amin else vmin
+      let nmax := if amax < vmax then amax else vmax
+      if nmin > nmax then none else setMinG av nmin c >>>= (setMaxG av nmax ·)
+  else
+    let filt := valid.filter (fun i =>
+      match getIdx arr i with
+      | none => false
+      | some av => !(decide ((c.st av).dmax < vmin) || decide ((c.st av).dmin > vmax)))
+    if filt.isEmpty then none
+    else setMinG idx (filt.headD 0) c >>>= (setMaxG idx (filt.getLastD 0) ·)
+
+/-- `Element::propagate_from_index` -/
+def elemFromIndex (arr : List Nat) (idx val : Nat) (c : Ctx) : Option Ctx :=
+  let valid := elemValid arr.length idx c.st
+  if valid.isEmpty then none
+  else if valid.length = 1 then
+    match getIdx arr (valid.headD 0) with
+    | none => some c
+    | some av => intersectSet val av c
+  else
+    let avs := valid.filterMap (getIdx arr)
+    if avs.isEmpty then some c
+    else setMinG val (Dom.dmin (avs.map (fun av => (c.st av).dmin))) c
+      >>>= (setMaxG val (Dom.dmax (avs.map (fun av => (c.st av).dmax))) ·)
+
+/-- `Element::prune` -/
+def pruneElement (arr : List Nat) (idx val : Nat) (ctx : Ctx) : Option Ctx :=
+  let n : Int := arr.length
+  if (ctx.st idx).dmax < 0 ∨ (ctx.st idx).dmin ≥ n then none
+  else
+    (if (ctx.st idx).dmin < 0 then ctx.trySetMin idx 0 else some ctx)
+    >>>= (fun c => if (c.st idx).dmax ≥ n then c.trySetMax idx (n - 1) else some c)
+    >>>= (fun c =>
+      if (c.st idx).dmin = (c.st idx).dmax then
+        match getIdx arr (c.st idx).dmin with
+        | none => some c
+        | some av => intersectSet av val c
+      else elemFromValue arr idx val c >>>= (elemFromIndex arr idx val ·))
+
+/-- `Table::is_tuple_supported` -/
+def tupSupported (xs : List Nat) (st : Store) (t : List Int) : Bool :=
+  (xs.zip t).all (fun p => decide ((st p.1).dmin ≤ p.2) && decide (p.2 ≤ (st p.1).dmax))
+
+/-- `Table::narrow_domain_to_supported` -/
+def tableNarrow (xs : List Nat) (ts : List (List Int)) (i : Nat) (c : Ctx) : Option Ctx :=
+  let x := xs.getD i 0
+  let sup := (ts.filter (tupSupported xs c.st)).map (fun t => t.getD i 0)
+  if sup.isEmpty then none
+  else
+    (if Dom.dmin sup > (c.st x).dmin then c.trySetMin x (Dom.dmin sup) else some c)
+    >>>= (fun c' => if Dom.dmax sup < (c.st x).dmax then c'.trySetMax x (Dom.dmax sup) else some c')
+
+/-- one sweep over all positions; the flag records whether some bound moved -/
+def tablePass (xs : List Nat) (ts : List (List Int)) (c : Ctx) : Option (Ctx × Bool) :=
+  (List.range xs.length).foldl (fun (acc : Option (Ctx × Bool)) i =>
+    match acc with
+    | none => none
+    | some (c, ch) =>
+      match tableNarrow xs ts i c with
+      | none => none
+      | some c' =>
+        let x := xs.getD i 0
+        some (c', ch || ((c.st x).dmin != (c'.st x).dmin || (c.st x).dmax != (c'.st x).dmax)))
+    (some (c, false))
+
+/-- the `loop` of `Table::prune`; every sweep that reports a change removes a value, so the total
+domain size (+1) bounds the number of sweeps -/
+def tableLoop (xs : List Nat) (ts : List (List Int)) : Nat → Ctx → Option Ctx
+  | 0, c => some c
+  | fuel + 1, c =>
+    match tablePass xs ts c with
+    | none => none
+    | some (c', ch) =>
+      if !ch then some c'
+      else if !(ts.any (tupSupported xs c'.st)) then none
+      else tableLoop xs ts fuel c'
+
+/-- `Table::prune` -/
+def pruneTable (xs : List Nat) (ts : List (List Int)) (ctx : Ctx) : Option Ctx :=
+  if !(ts.any (tupSupported xs ctx.st)) then none
+  else tableLoop xs ts ((xs.map (fun x => (ctx.st x).length)).sum + 1) ctx
+
+/-- `Condition::is_definitely_true` / `is_definitely_false` on the bounds `mn..mx` -/
+def condDefTrue : CondOp → Int → Int → Int → Bool
+  | .eq, mn, mx, v => mn == mx && mn == v
+  | .ne, mn, mx, v => decide (mx < v) || decide (mn > v)
+  | .gt, mn, _, v => decide (mn > v)
+  | .lt, _, mx, v => decide (mx < v)
+def condDefFalse : CondOp → Int → Int → Int → Bool
+  | .eq, mn, mx, v => decide (mx < v) || decide (mn > v)
+  | .ne, mn, mx, v => mn == mx && mn == v
+  | .gt, _, mx, v => decide (mx ≤ v)
+  | .lt, mn, _, v => decide (mn ≥ v)
+
+/-- `SimpleConstraint::apply` -/
+def simpApply : SimpOp → Nat → Int → Ctx → Option Ctx
+  | .eq, x, v, c => c.trySetMin x v >>>= (·.trySetMax x v)
+  | .ne, x, v, c =>
+    if (c.st x).dmin = v then c.trySetMin x (v + 1)
+    else if (c.st x).dmax = v then c.trySetMax x (v - 1)
+    else some c
+  | .gt, x, v, c => c.trySetMin x (v + 1)
+  | .lt, x, v, c => c.trySetMax x (v - 1)
+  | .ge, x, v, c => c.trySetMin x v
+  | .le, x, v, c => c.trySetMax x v
+
+/-- `IfThenElseConstraint::prune` -/
+def pruneIte (cop : CondOp) (cv : Nat) (cval : Int) (top : SimpOp) (tv : Nat) (tval : Int)
+    (els : Option (SimpOp × Nat × Int)) (ctx : Ctx) : Option Ctx :=
+  let mn := (ctx.st cv).dmin
+  let mx := (ctx.st cv).dmax
+  if condDefTrue cop mn mx cval then simpApply top tv tval ctx
+  else if condDefFalse cop mn mx cval then
+    match els with
+    | none => some ctx
+    | some (op, x, v) => simpApply op x v ctx
+  else some ctx
+
+/-! #### all-different (`AllDiff::prune` over `[min..max]` ranges through the bit-set GAC engine)
+
+`AllDiff::propagate_gac` copies the *ranges* `[min, max]` of the variables into a `HybridGAC`, which
+uses `BitSetGAC` for ranges of at most 128 values (`SparseSetGAC` beyond that — not modelled here:
+for wider ranges this model still runs the bit-set algorithm).  The engine state is the list of the
+positions' value lists. -/
+
+/-- distinct elements (a `HashSet` of values; only its size and membership are observable) -/
+def uniq : List Int → List Int
+  | [] => []
+  | x :: l => if x ∈ uniq l then uniq l else x :: uniq l
+
+/-- `combinations(&items, k)` of `gac_bitset.rs` -/
+def combos : List Nat → Nat → List (List Nat)
+  | _, 0 => [[]]
+  | [], _ + 1 => []
+  | x :: rest, k + 1 => (combos rest k).map (x :: ·) ++ combos rest (k + 1)
+
+/-- remove the values `vals` from every position not protected by `keep`; inconsistent when a
+position lost its last value -/
+def gacStrip (keep : Nat → Bool) (vals : List Int) (ds : List Dom) : Option (List Dom) :=
+  let ds' := (List.range ds.length).map (fun j =>
+    if keep j then ds.getD j [] else (ds.getD j []).filter (fun w => !vals.contains w))
+  if (List.range ds.length).any (fun j =>
+      (ds'.getD j []).length != (ds.getD j []).length && (ds'.getD j []).isEmpty) then none
+  else some ds'
+
+/-- first phase of `BitSetGAC::propagate_alldiff`: the values of the positions fixed *at entry*
+are removed from all other positions -/
+def gacAssigned (ds : List Dom) : Option (List Dom) :=
+  let assigned : List (Nat × Int) := (List.range ds.length).filterMap (fun i =>
+    match ds.getD i [] with
+    | [v] => some (i, v)
+    | _ => none)
+  assigned.foldl (fun acc p =>
+    match acc with
+    | none => none
+    | some ds => gacStrip (fun j => j == p.1) [p.2] ds) (some ds)
+
+/-- `BitSetGAC::propagate_hall_sets`: for at most 6 variables, every subset of 2..4 positions whose
+domains' union has as many values as the subset has positions keeps those values for itself -/
+def gacHall (ds : List Dom) : Option (List Dom) :=
+  let n := ds.length
+  if n ≤ 6 then
+    let subsets := (List.range' 2 ((if n < 4 then n else 4) - 1)).flatMap (fun k => combos (List.range n) k)
+    subsets.foldl (fun acc sub =>
+      match acc with
+      | none => none
+      | some ds =>
+        let u := uniq (sub.flatMap (fun i => ds.getD i []))
+        if sub.length = u.length then gacStrip (fun j => sub.contains j) u ds else some ds) (some ds)
+  else some ds
+
+/-- `AllDiff::prune` -/
+def pruneAllDiff (xs : List Nat) (ctx : Ctx) : Option Ctx :=
+  if xs.length ≤ 1 then some ctx
+  else
+    let ds0 := xs.map (fun x => intRange (ctx.st x).dmin (ctx.st x).dmax)
+    /- quick_feasibility_check -/
+    if (uniq (ds0.flatMap id)).length < xs.length then none
+    else
+      match gacAssigned ds0 with
+      | none => none
+      | some ds1 =>
+        match gacHall ds1 with
+        | none => none
+        | some ds2 =>
+          forM' (List.range xs.length) ctx (fun i c =>
+            match ds2.getD i [] with
+            | [] => none
+            | d => c.trySetMin (xs.getD i 0) (Dom.dmin d) >>>= (·.trySetMax (xs.getD i 0) (Dom.dmax d)))
+
 /-- `Prune::prune` -/
 def prune : PK → Ctx → Option Ctx
   | .leq x y, ctx =>
@@ -563,6 +1036,17 @@ def prune : PK → Ctx → Option Ctx
   | .min xs r, ctx => pruneMin xs r ctx
   | .max xs r, ctx => pruneMax xs r ctx
   | .noop, ctx => some ctx
+  | .mul x y s, ctx => pruneMul x y s ctx
+  | .div x y s, ctx => pruneDiv x y s ctx
+  | .modulo x y s, ctx => pruneMod x y s ctx
+  | .allEqual xs, ctx => pruneAllEqual xs ctx
+  | .between l m u, ctx => pruneBetween l m u ctx
+  | .count xs t c, ctx => pruneCount xs t c ctx
+  | .card ty xs tv n, ctx => pruneCard ty xs tv n ctx
+  | .element arr idx val, ctx => pruneElement arr idx val ctx
+  | .table xs ts, ctx => pruneTable xs ts ctx
+  | .ite cop cv cval top tv tval els, ctx => pruneIte cop cv cval top tv tval els ctx
+  | .allDiff xs, ctx => pruneAllDiff xs ctx
 
 def optL : Option Nat → List Nat
   | none => []
@@ -590,6 +1074,17 @@ def triggers : PK → List Nat
   | .min xs r => r :: xs
   | .max xs r => r :: xs
   | .noop => []
+  | .mul x y s => [s] ++ optL x.underlying ++ optL y.underlying
+  | .div x y s => [s] ++ optL x.underlying ++ optL y.underlying
+  | .modulo x y s => [s] ++ optL x.underlying ++ optL y.underlying
+  | .allEqual xs => xs
+  | .between l m u => [l, m, u]
+  | .count xs t c => xs ++ optL t.underlying ++ [c]
+  | .card _ xs _ _ => xs
+  | .element arr idx val => arr ++ [idx, val]
+  | .table xs _ => xs
+  | .ite _ cv _ _ tv _ els => [cv, tv] ++ (match els with | none => [] | some (_, x, _) => [x])
+  | .allDiff xs => xs
 
 def linVal (cs : List Int) (xs : List Nat) (a : Nat → Int) : Int :=
   (List.zip cs xs).foldl (fun acc p => acc + p.1 * a p.2) 0
@@ -618,6 +1113,27 @@ def holds (a : Nat → Int) : PK → Bool
   | .min xs r => xs.isEmpty || (xs.all (fun x => decide (a r ≤ a x)) && xs.any (fun x => a x == a r))
   | .max xs r => xs.isEmpty || (xs.all (fun x => decide (a x ≤ a r)) && xs.any (fun x => a x == a r))
   | .noop => true
+  | .mul x y s => x.eval a * y.eval a == a s
+  | .div x y s => y.eval a != 0 && a s * y.eval a == x.eval a
+  | .modulo x y s => y.eval a != 0 && a s == Int.tmod (x.eval a) (y.eval a)
+  | .allEqual xs => match xs with | [] => true | x0 :: rest => rest.all (fun x => a x == a x0)
+  | .between l m u => decide (a l ≤ a m) && decide (a m ≤ a u)
+  | .count xs t c => a c == ((xs.filter (fun x => a x == t.eval a)).length : Nat)
+  | .card ty xs tv n =>
+    let k : Int := ((xs.filter (fun x => a x == tv)).length : Nat)
+    match ty with
+    | .atLeast => decide (k ≥ n)
+    | .atMost => decide (k ≤ n)
+    | .exactly => k == n
+  | .element arr idx val =>
+    match getIdx arr (a idx) with
+    | none => false
+    | some av => a val == a av
+  | .table xs ts => ts.any (fun t => t == xs.map a)
+  | .ite cop cv cval top tv tval els =>
+    if cop.holds (a cv) cval then top.holds (a tv) tval
+    else match els with | none => true | some (op, x, v) => op.holds (a x) v
+  | .allDiff xs => decide ((xs.map a).Nodup)
 
 end PK
 end Selen
